@@ -107,6 +107,11 @@ def finish(pid, tier, results, t0, trusted_base, explanation, extra_assumptions=
     violations = []
     known_hit = []
     errors = []
+    try:
+        from rules import subsumption
+        subsumption.apply(results, known_ids)
+    except ImportError:
+        pass
     for r in results:
         unlisted = [f for f in r.findings if f.fid not in known_ids]
         if not unlisted:
